@@ -18,7 +18,8 @@ RULE = (
     'generate_timestamped_rows and, for a sample, through `spowtd load` into the staging tables.  Oracle: pytz\'s '
     'UTC->local map (fromtimestamp(utc).astimezone(tz), a different code path from localize) must print the original '
     'text; zoneinfo as a second opinion where both databases give the same offset.  (b) Malformed variants of valid '
-    'G-load triples: one rainfall row removed or displaced inside the span, one ET row removed for a grid step, a '
+    'G-load triples: one rainfall row removed or displaced inside the span, one ET row removed for a grid step, displaced '
+    'off the grid, or removed while extra off-grid readings keep the row count up, a '
     'second load into the populated dataset -- each must raise / exit non-zero, leave every gridded table empty '
     '(resp. the populated dataset byte-for-byte unchanged in its logical dump); the unmodified triple is loaded as a '
     'control.  Non-trivial: zone whose LMT offset differs from the offset at the datetime or a DST-observing zone; '
@@ -41,6 +42,8 @@ REQUIRED = {
         'refused:rain-row-removed': 20,
         'refused:rain-row-displaced': 20,
         'refused:et-row-removed': 20,
+        'refused:et-row-displaced': 20,
+        'refused:et-row-removed-extra-rows-elsewhere': 20,
         'refused:second-load': 20,
         'controls-accepted': 50,
     }
@@ -288,6 +291,11 @@ def check_refusals(ctx, rng, index, via):
         ('rain-row-removed', [r for r in case['rain'] if r[0] != victim], case['et'], case['z']),
         ('rain-row-displaced', [(t + rng.choice([60, -60, 1, case['rstep'] // 2]), v) if t == victim else (t, v) for t, v in case['rain']], case['et'], case['z']),
         ('et-row-removed', case['rain'], [r for r in case['et'] if r[0] != et_victim], case['z']),
+        # the row count stays the same: the reading is logged late / mid-step
+        ('et-row-displaced', case['rain'], [(t + rng.choice([1, 60, case['rstep'] // 2]), v) if t == et_victim else (t, v) for t, v in case['et']], case['z']),
+        # missing at one grid step while extra off-grid readings keep the count up
+        ('et-row-removed-extra-rows-elsewhere', case['rain'],
+         [r for r in case['et'] if r[0] != et_victim] + [(rng.choice(inspan) + 7, 0.123), (rng.choice(inspan) + 11, 0.321)], case['z']),
     ]
     for name, rain, et, z in variants:
         rec.case()
